@@ -27,13 +27,13 @@ T = {
  "C07": ("crash/hang freedom over the full parameter product under catch_unwind + watchdog; proptest incl. boundary-directed minute offsets (a prayer bisected onto the midnight wrap, +-8 ulps, 4 rounding modes) and libFuzzer target c07_nopanic (thorough)",
          "The full product of sites (incl. poles), 9 methods x 15 policies x 4 roundings, angles [0,25], intervals [0,180], offsets [-1500,1500], weather and dates is sampled; any panic, missing entry or (confirmed) hang is a violation.",
          "hang = > 30 s and reproduced in a fresh process; release build without overflow checks", "6 C07"),
- "C08": ("metamorphic: same call with and without the policy (conventional reference), per-entry equality/flag predicates; proptest incl. boundary-directed latitudes (polar-day limit) and a polar-night-edge class with interval-defined Fajr/Isha",
+ "C08": ("metamorphic: same call with and without the policy (conventional reference), per-entry equality/flag predicates; proptest incl. boundary-directed latitudes (polar-day limit) and a polar-night-edge class with interval-defined Fajr/Isha; libFuzzer target c08_policy with the same oracle (thorough)",
          "Each generated (site, method, policy) is compared with the conventional result: Fajr/Isha-only policies leave the other four untouched, 'invalid' policies are the identity on valid Fajr/Isha and on all-valid days, unflagged entries equal conventional ones.",
          "interval-consuming policies use a reference with zeroed intervals; 'conventionally valid' is taken literally (Ok in the no-policy result), also for interval-defined times on the polar-night edge (a dedicated class)", "6 C08"),
  "C09": ("reference model (independent outward day search through the public API with no policy); proptest incl. boundary-directed latitudes (closest good day at the edge of existence) + fixed-site whole-year sweeps",
          "The fallback value must equal, to the second, the conventional Fajr/Isha of the closest good date found by an independent search (earlier date on ties); generated cases are weighted to local summer and the first/last days of the year in both hemispheres; whole years are swept at fixed sites.",
          "a date is good when the no-policy API reports both Fajr and Isha", "6 C09"),
- "C10": ("reference model: expected values built from the conventional run (and one at the substitute latitude) with the formulas of the statement; proptest",
+ "C10": ("reference model: expected values built from the conventional run (and one at the substitute latitude) with the formulas of the statement; proptest and libFuzzer target c10_formulas with the same oracle (thorough)",
          "For the 10 policies of the statement the replaced Fajr/Isha (all six for nearest-latitude all-prayers) are compared with the stated formulas within 3 s and must be flagged extreme; interval-defined times must keep their definition.",
          "cases whose Shurooq < Dhuhr < Maghrib are not in clock order are skipped (counted)", "6 C10"),
  "C11": ("reference model (integer rounding function): exhaustive enumeration of mode x prayer key x second of day through the hour_to_time hook + generated end-to-end comparison of each mode with RoundSeconds::None; proptest",
